@@ -31,7 +31,7 @@ ASSUMPTIONS = [
 ]
 TOLERANCES = {"geometry": "1e-12 * S"}
 FAULT_TYPES = ["transform", "paint", "length", "points", "viewBox", "d", "stroke-width", "href-missing", "href-self", "href-ancestor", "href-cycle", "svg-zero", "opacity"]
-MANDATORY_LABELS = {"quick": ["fault:%s" % f for f in FAULT_TYPES] + ["on:shape", "on:container", "on:use", "faults:1", "faults:2+", "offender-path-rendered"]}
+MANDATORY_LABELS = {"quick": ["fault:%s" % f for f in FAULT_TYPES] + ["on:shape", "on:container", "on:use", "faults:1", "faults:2+", "offender-path-rendered", "style-in-faulty-container:skipped"]}
 MANDATORY_LABELS["thorough"] = MANDATORY_LABELS["quick"]
 
 # every transform function with every argument count from 0 to 7 (the counts a function accepts are simply no fault),
@@ -136,6 +136,27 @@ def decode(d):
         for c in later[:2]:
             key = {"rect": d.choice(["width", "x", "height"]), "ellipse": d.choice(["rx", "cy"]), "line": d.choice(["x2", "y2"])}[c["tag"]]
             c["attrs"][key] = d.choice(["50%", "25%", "100%", "12.5%"])
+    # a style sheet inside a container that is not rendered because its own transform is in error (or, for a nested svg,
+    # its size): a skipped element contributes nothing, its rules included - outside it the document is as if the
+    # container were not there.  (Containers with other faults are rendered leniently and their rules are read, which is
+    # the document-wide effect a style sheet legitimately has; no sheet is placed there.)
+    kinds_of = lambda n: set(f[3] for f in faults if f[0] == n["id"])
+    faulty = [n for n, parents in nodes if parents and n["tag"] in ("g", "svg") and kinds_of(n) and kinds_of(n) <= set(["transform", "svg-zero"])
+              and not any(p["tag"] == "defs" for p in parents)]
+    def plain(h):
+        # nothing else going on around the container: no other fault inside it, and no use reaches it, its content or
+        # an element around it (a use renders its target a second time, with the rules read so far)
+        inside = set(m["id"] for m, _ in docgen.walk(h))
+        around = set(p["id"] for n, parents in nodes if n is h for p in parents)
+        if any(f[0] in inside and f[0] != h["id"] for f in faults):
+            return False
+        return not any(n["tag"] == "use" and (n.get("href") in inside or n.get("href") in around or n["id"] in inside) for n, _ in nodes)
+
+    faulty = [h for h in faulty if plain(h)]
+    if faulty and d.chance(2, 3):
+        h = d.choice(faulty)
+        rules = d.choice(["rect{fill:red;stroke:blue} path{fill:lime}", "*{stroke-width:7;stroke:#123456}", "ellipse,circle,line,polygon,polyline{fill:#abcdef;stroke:red}", "rect,path,ellipse{transform:translate(5px,5px)}"])
+        h["children"].insert(d.below(len(h["children"]) + 1), {"tag": "style", "id": "st1", "attrs": {}, "children": [], "cls": None, "text": rules})
     return {"doc": doc, "faults": faults}
 
 
@@ -160,8 +181,9 @@ def apply_faults(doc, faults):
     return bad
 
 
-def remove_offenders(doc, offenders):
-    """D': the document without the offending elements, their subtrees, and every use that reaches one of them"""
+def remove_offenders(doc, offenders, keep_style=False):
+    """D': the document without the offending elements, their subtrees, and every use that reaches one of them
+    (keep_style: a style sheet inside a removed subtree stays where the subtree was - its rules are document-wide)"""
     clean = _copy.deepcopy(doc)
     root = clean["root"]
     if root["id"] in offenders:
@@ -186,7 +208,13 @@ def remove_offenders(doc, offenders):
                     changed = True
 
     def prune(n):
-        n["children"] = [c for c in n["children"] if c["id"] not in removed]
+        kept = []
+        for c in n["children"]:
+            if c["id"] not in removed:
+                kept.append(c)
+            elif keep_style:
+                kept.extend(m for m, _ in docgen.walk(c) if m["tag"] == "style")
+        n["children"] = kept
         for c in n["children"]:
             prune(c)
 
@@ -298,17 +326,40 @@ def check(case):
             if have != expect:
                 return o.violation("offender-path:not-the-valid-prefix", "path %r with d=%r is rendered as %s (%s), the valid prefix of its data is %s\n  faults: %r\n  document: %s" % (
                     e.id, value, have, e.d(), expect, faults, text))
-    i = 0
-    for w in want:
-        while i < len(got) and not same(got[i], w):
+    def compare(want, ctext):
+        i = 0
+        for w in want:
+            while i < len(got) and not same(got[i], w):
+                i += 1
+            if i >= len(got):
+                present = [g["id"] for g in got if g is not None]
+                kind = "missing" if w["id"] not in present else "changed"
+                kinds = "+".join(sorted(set(f[3] for f in faults)))
+                return o.violation("sibling-%s:%s" % (kind, kinds), "shape %r outside the faulty subtrees is %s: faults %r\n  faulty document: %s\n  without the offenders: %s\n  rendered ids: %r" % (
+                    w["id"], kind, faults, text, ctext, present))
             i += 1
-        if i >= len(got):
-            present = [g["id"] for g in got if g is not None]
-            kind = "missing" if w["id"] not in present else "changed"
-            kinds = "+".join(sorted(set(f[3] for f in faults)))
-            return o.violation("sibling-%s:%s" % (kind, kinds), "shape %r outside the faulty subtrees is %s: faults %r\n  faulty document: %s\n  without the offenders: %s\n  rendered ids: %r" % (
-                w["id"], kind, faults, text, ctext, present))
-        i += 1
+        return None
+
+    verdict = compare(want, ctext)
+    holder = next((n for n, _ in docgen.walk(doc["root"]) if any(ch["tag"] == "style" for ch in n["children"])), None)
+    if holder is not None:
+        # The container holds a style sheet and its own transform (or size) is in error.  Some such values are read
+        # leniently and the container is rendered - then its rules are read too, and rules are document-wide; a container
+        # that is skipped contributes nothing at all.  Skipped = shapes inside it that the intact document renders, and
+        # none of them rendered now.
+        inside = set(m["id"] for m, _ in docgen.walk(holder))
+        present = set(g["id"] for g in got if g is not None)
+        normally = set(s_["id"] for s_ in (snapshot(e) for e in c03.shapes_of(c03.parse(doc, True, to_text(doc)))) if s_ is not None)
+        skipped = bool(inside & normally) and not (inside & present)
+        o.label("style-in-faulty-container:%s" % ("skipped" if skipped else "rendered-or-undecided"))
+        if verdict is not None and not skipped:
+            clean2 = remove_offenders(doc, offenders, keep_style=True)
+            ctext2 = to_text(clean2)
+            verdict = compare([snapshot(e) for e in c03.shapes_of(c03.parse(clean2, True, ctext2))], ctext2)
+        elif verdict is not None:
+            verdict.bucket = "skipped-container-rules-applied:" + verdict.bucket.split(":", 1)[-1]
+    if verdict is not None:
+        return verdict
     o.nontrivial = len(want) >= 1
     return o.ok()
 
